@@ -277,7 +277,13 @@ pub fn write_fasta_auto(path: &Path, records: &[Vec<u8>], width: Option<usize>) 
 pub fn write_fastq(path: &Path, reads: &[(Vec<u8>, Vec<u8>)]) {
     let mut s: Vec<u8> = Vec::new();
     for (i, (seq, qual)) in reads.iter().enumerate() {
-        s.extend_from_slice(format!("@r{i}\n").as_bytes());
+        // read names as sequencers write them: plain ids, or an id and a description whose filter flag says
+        // that the read passed (N) or failed (Y) the instrument's own filter; a read in the file is a read
+        match i % 4 {
+            1 => s.extend_from_slice(format!("@M01:7:FC:1:1101:{}:{} {}:N:0:ACGTAC\n", 1000 + i, 2000 + i, 1 + i % 2).as_bytes()),
+            3 => s.extend_from_slice(format!("@M01:7:FC:1:1101:{}:{} {}:Y:0:ACGTAC\n", 1000 + i, 2000 + i, 1 + i / 2 % 2).as_bytes()),
+            _ => s.extend_from_slice(format!("@r{i}\n").as_bytes()),
+        }
         s.extend_from_slice(seq);
         s.extend_from_slice(b"\n+\n");
         s.extend_from_slice(qual);
